@@ -170,11 +170,9 @@ class DecimalConverter(NullConverter):
 
     @classmethod
     def _decimal_to_xml(cls, py_value):
-        xml_value = str(py_value)
-        if 'E' in xml_value or 'e' in xml_value:
-            # no exp form allowed in xml
-            return cls._float_to_xml(float(py_value))
-        return xml_value
+        # no exp form allowed in xml: the 'f' format never uses an exponent and keeps every digit
+        # (going through float lost digits, e.g. Decimal('1E-7') became '0')
+        return format(py_value, 'f')
 
     @classmethod
     def to_xml(cls, py_value):
@@ -189,8 +187,14 @@ class DecimalConverter(NullConverter):
             # Limit number of digits, because standard says:
             # All ·minimally conforming· processors ·must· support decimal numbers with a minimum of
             # 18 decimal digits (i.e., with a ·totalDigits· of 18).
+            # Only significant digits count: no sign, no leading zeros.
             head, tail = xml_value.split('.')
-            tail = tail[:18 - len(head)]
+            int_digits = head.lstrip('+-').lstrip('0')
+            if int_digits:
+                max_fraction_digits = 18 - len(int_digits)
+            else:
+                max_fraction_digits = 18 + len(tail) - len(tail.lstrip('0'))
+            tail = tail[:max(max_fraction_digits, 0)]
             if tail:
                 xml_value = f'{head}.{tail}'
             else:
